@@ -39,7 +39,7 @@ from lib import vlib
 from lib.vlib import cq_list, cq_nat, cq_str, cq_z
 from harness.universe import Universe, table_rows, export_plan
 from harness.orch import GateListener, run_observed, install
-from harness import routing_j
+from harness import routing_j, routing
 
 LEVEL = "proof"
 logging.disable(logging.CRITICAL)
@@ -480,7 +480,8 @@ def one(spec: Dict[str, Any]) -> Dict[str, Any]:
         rec["exc"] = f"{type(e).__name__}: {str(e)[:120]}"
         return rec
     plan = export_plan(sess, uni)
-    o = run_observed(sess, timeout=20)
+    o = run_observed(sess, timeout=20, ren=plan["_ren"])
+    plan = routing.with_run_orders(plan, o.get("orders"))
     rec["status"] = o["status"]
     rec["exc"] = str(o.get("exc"))[-160:] if o["status"] == "raised" else None
     rec["rows"] = cap.rows.get("D1")
